@@ -27,7 +27,7 @@ LimitsAreRuntimes(e, q) ==
     cfg.runtime =>
        /\ PathOK(e.levels, q)
        /\ \A d \in quota[q].dims :
-             /\ LevelsOK(e.levels, 1, d, Scale(d) * cluster[d])
+             /\ LevelsOK(e.levels, 1, d, cluster[d])
              /\ \A i \in 1..Len(e.levels) : e.limits[e.levels[i].name][d] = RtOf(e.levels[i], d, e.levels[i].name)
 
 TAdmit ==
